@@ -105,6 +105,7 @@ theorem usesE_rn (hν : Adm ν) (bs : List Name) : ∀ e : Expr,
     usesE (rnStack ν bs) (rnE ν bs e) = (usesE bs e).map (rnUse ν)
   | .lit _ => rfl
   | .var _ => rfl
+  | .dimVar _ => rfl
   | .enumVal _ _ => rfl
   | .un _ a => by simp only [rnE, usesE, usesE_rn hν bs a]
   | .bin _ a b => by simp only [rnE, usesE, usesE_rn hν bs a, usesE_rn hν bs b, List.map_append]
